@@ -7,7 +7,8 @@ from harness.common import grid_phase
 F_CF = "quantarhei/qm/corfunctions/correlationfunctions.py"
 F_SD = "quantarhei/qm/corfunctions/spectraldensities.py"
 
-TYPES = {"OB": "OverdampedBrownian", "HT": "OverdampedBrownian-HighTemperature", "VD": "Value-defined"}
+TYPES = {"OB": "OverdampedBrownian", "HT": "OverdampedBrownian-HighTemperature", "VD": "Value-defined",
+         "UB": "UnderdampedBrownian"}
 
 
 def component(cx, time, kind, idx, T, concrete_bath=False):
@@ -25,6 +26,14 @@ def component(cx, time, kind, idx, T, concrete_bath=False):
         params = dict(ftype=TYPES[kind], reorg=lam, T=T)
         with qr.energy_units("int"):
             return qr.CorrelationFunction(time, params, values=vals)
+    if kind == "UB":
+        # built through the spectral density and the (stubbed) discrete Fourier transform
+        gam, om0 = cx.real("gamma%d" % idx, 0.005, 0.02), cx.real("freq%d" % idx, 0.05, 0.2)
+        cx.assume(gam > 0, "dampings, frequencies > 0")
+        cx.assume(om0 > 0)
+        params = dict(ftype=TYPES[kind], reorg=lam, gamma=gam, freq=om0, T=T)
+        with qr.energy_units("int"):
+            return qr.CorrelationFunction(time, params)
     tau = cx.real("tau%d" % idx, 50.0, 150.0)
     cx.assume(tau > 0, "correlation times > 0")
     params = dict(ftype=TYPES[kind], reorg=lam, cortime=tau, T=T, matsubara=1)
@@ -44,10 +53,11 @@ def same_params(cx, label, got, want):
 
 
 @harness("C09", "addition",
-         quick=[dict(kinds=["OB", "HT", "OB"], concrete_bath=True)] +
+         quick=[dict(kinds=["OB", "HT", "OB"], concrete_bath=True), dict(kinds=["UB", "OB"])] +
                [dict(kinds=list(k)) for k in (("OB", "HT", "OB"), ("HT", "OB", "HT"), ("OB", "OB", "VD"),
                                               ("HT", "OB", "VD"))],
-         thorough=[dict(kinds=["OB", "HT", "OB"], concrete_bath=True), dict(kinds=["OB", "OB"], concrete_bath=True)] +
+         thorough=[dict(kinds=["OB", "HT", "OB"], concrete_bath=True), dict(kinds=["OB", "OB"], concrete_bath=True),
+                   dict(kinds=["UB", "OB"]), dict(kinds=["OB", "UB", "HT"]), dict(kinds=["UB", "UB"])] +
                   [dict(kinds=list(k)) for k in itertools.product(("OB", "HT"), ("OB", "HT"), ("OB", "HT", "VD"))] +
                   [dict(kinds=["OB", "HT", "OB", "HT"]), dict(kinds=["HT", "HT", "OB", "VD"])],
          functions=[F_CF + ":CorrelationFunction.__init__", F_CF + ":CorrelationFunction.__add__",
@@ -55,7 +65,8 @@ def same_params(cx, label, got, want):
                     F_CF + ":CorrelationFunction.add_to_data2", F_CF + ":CorrelationFunction._make_overdamped_brownian",
                     F_CF + ":CorrelationFunction._make_overdamped_brownian_ht",
                     F_CF + ":CorrelationFunction._make_value_defined", F_CF + ":CorrelationFunction._matsubara"],
-         bound="3 (thorough also 4) components from {overdamped Brownian, its high-temperature form, value-defined "
+         bound="3 (thorough also 4) components from {overdamped Brownian, its high-temperature form, underdamped Brownian "
+               "(built through its spectral density and the stubbed discrete Fourier transform), value-defined "
                "(only as last/right operand)} on a 3-point time axis, one Matsubara term; reorganisation energies, "
                "correlation times, temperature and the value-defined data symbolic; exp and tan uninterpreted; "
                "groupings (a+b)+c, a+(b+c), a+=b+=c and a copy rebuilt from the parameter list",
